@@ -349,8 +349,9 @@ def r15_3(ctx: Ctx, rep: Report) -> None:
                     # number of its own is ordered by its first member's)
                     if isinstance(e, ast.BoolOp) and isinstance(e.op, ast.Or) and len(e.values) == 2:
                         rest = e.values[1]
-                        if not (any(isinstance(z, ast.Attribute) and z.attr.lstrip("_") == "sequence" for z in ast.walk(rest)) and (chain(rest if not isinstance(rest, ast.IfExp) else rest.body) or [who])[0] == who):
-                            return False
+                        roots = {z.id for z in ast.walk(rest) if isinstance(z, ast.Name)}
+                        if not (any(isinstance(z, ast.Attribute) and z.attr.lstrip("_") == "sequence" for z in ast.walk(rest)) and roots <= {who}):
+                            return False  # the replacement for <who>'s missing number must be taken from <who>'s own members
                         e = e.values[0]
                     c_ = chain(e) or [""]
                     return c_[0] == who and c_[-1].lstrip("_") == "sequence"
@@ -895,6 +896,14 @@ def group_is_atomic(ctx: Ctx, rep: Report, rid: str = "R15.14") -> None:
 def run(ctx: Ctx, rep: Report, tier: str) -> None:
     r15_6(ctx, rep)
     r15_1(ctx, rep)
+    # R15.19 the own number `sort()` reads is the block's own: a rebuilt block receives the number of the block it replaces
+    # (C16 R16.23), found again under a key computed from that very block (C16 R16.25)
+    from .c16 import block_identity_key_is_unique, blocks_keep_number
+
+    sub1619 = Report("C15")
+    blocks_keep_number(ctx, sub1619)
+    block_identity_key_is_unique(ctx, sub1619)
+    rep.absorb(sub1619, "R15.19")
     r15_2(ctx, rep)
     r15_3(ctx, rep)
     lt_field_agreement(ctx, rep)
